@@ -191,7 +191,40 @@ def family_repeated_constant():
             body = binop(comb, binop(comb, ts[0], ts[1]), ts[2])
             m.entry([INT, INT, INT], BOOL if "cmp" in where else INT, body, grid)
         mods.append(m.done("repeated-constant"))
-    # bytes: the same prefix / suffix three times is not expressible with the AST's operators; integers only
+    # byte-array builtins (all curried by the optimiser when partially applied to the same constant several times)
+    bcall = lambda f, *a: {"k": "bcall", "f": f, "args": list(a)}
+    B = lambda *bs: {"k": "bytes", "bs": list(bs)}
+    bgrid = [[DB(*a), DB(*b), DB(*c)] for a, b, c in [((), (1,), (1, 2)), ((1, 2), (1, 2), (1, 3)), ((255,), (0,), (1, 2, 3)), ((1,), (1, 2, 3), ()), ((2,), (1, 255), (1, 2))]]
+    m = Mod()
+    A = [V("arg0"), V("arg1"), V("arg2")]
+    for cst in (B(1, 2), B()):
+        for f in ("less_than_bytearray", "less_than_equals_bytearray"):
+            for first in (True, False):
+                ts = [bcall(f, cst, a) if first else bcall(f, a, cst) for a in A]
+                m.entry([BYTES, BYTES, BYTES], BOOL, binop("&&", binop("||", ts[0], ts[1]), binop("||", ts[1], ts[2])), bgrid)
+        for first in (True, False):
+            ts = [bcall("append_bytearray", cst, a) if first else bcall("append_bytearray", a, cst) for a in A]
+            m.entry([BYTES, BYTES, BYTES], BYTES, bcall("append_bytearray", bcall("append_bytearray", ts[0], ts[1]), ts[2]), bgrid)
+    mods.append(m.done("repeated-constant"))
+    m = Mod()
+    # index: the same byte array / the same index three times; cons: the same byte three times; slice: the same start three times
+    igrid = [[DI(a), DI(b), DI(c)] for a, b, c in [(0, 1, 2), (2, 2, 2), (0, 3, 1), (-1, 0, 0), (1, 1, 0)]]
+    AI = [V("arg0"), V("arg1"), V("arg2")]
+    ts = [bcall("index_bytearray", B(10, 20, 30), a) for a in AI]
+    m.entry([INT, INT, INT], INT, binop("+", binop("+", ts[0], ts[1]), ts[2]), igrid)
+    ts = [bcall("index_bytearray", a, I(1)) for a in A]
+    m.entry([BYTES, BYTES, BYTES], INT, binop("+", binop("+", ts[0], ts[1]), ts[2]), bgrid)
+    ts = [bcall("cons_bytearray", I(65), a) for a in A]
+    m.entry([BYTES, BYTES, BYTES], BYTES, bcall("append_bytearray", bcall("append_bytearray", ts[0], ts[1]), ts[2]), bgrid)
+    ts = [bcall("cons_bytearray", a, B(7)) for a in AI]
+    m.entry([INT, INT, INT], BYTES, bcall("append_bytearray", bcall("append_bytearray", ts[0], ts[1]), ts[2]), igrid + [[DI(255), DI(256), DI(0)]])
+    ts = [bcall("slice_bytearray", I(1), a, B(1, 2, 3, 4)) for a in AI]
+    m.entry([INT, INT, INT], BYTES, bcall("append_bytearray", bcall("append_bytearray", ts[0], ts[1]), ts[2]), igrid)
+    ts = [bcall("slice_bytearray", a, I(2), B(1, 2, 3, 4)) for a in AI]
+    m.entry([INT, INT, INT], BYTES, bcall("append_bytearray", bcall("append_bytearray", ts[0], ts[1]), ts[2]), igrid)
+    ts = [bcall("length_of_bytearray", bcall("append_bytearray", B(9), a)) for a in A]
+    m.entry([BYTES, BYTES, BYTES], INT, binop("*", binop("*", ts[0], ts[1]), ts[2]), bgrid)
+    mods.append(m.done("repeated-constant"))
     return mods
 
 
